@@ -787,10 +787,10 @@ def check_clip_to_viewbox(repo: Repo, rep: Report, rule: str):
     n = 0
     for vb, boxes, expect in [
         ("0 0 10 10", {"in": (2, 2, 4, 4), "out": (20, 20, 30, 30), "cut": (5, 5, 15, 15), "left": (-5, 1, 5, 2), "exact": (0, 0, 10, 10), "tall": (2, 5, 4, 15), "wide": (5, 2, 15, 4),
-                       "ring": (4, 4, 16, 16)},
-         {"in": None, "cut": (5, 5, 5, 5), "left": (0, 1, 5, 1), "exact": None, "tall": (2, 5, 2, 5), "wide": (5, 2, 5, 2), "ring": (4, 4, 6, 6)}),
-        ("-50 -50 100 100", {"in": (-40, -40, 40, 40), "cut": (40, 40, 60, 60), "out": (60, 0, 70, 10), "neg": (-60, -60, -40, -40)},
-         {"in": None, "cut": (40, 40, 10, 10), "neg": (-50, -50, 10, 10)}),
+                       "ring": (4, 4, 16, 16), "cover": (-5, -5, 15, 15), "band": (-5, 3, 15, 6)},
+         {"in": None, "cut": (5, 5, 5, 5), "left": (0, 1, 5, 1), "exact": None, "tall": (2, 5, 2, 5), "wide": (5, 2, 5, 2), "ring": (4, 4, 6, 6), "cover": (0, 0, 10, 10), "band": (0, 3, 10, 3)}),
+        ("-50 -50 100 100", {"in": (-40, -40, 40, 40), "cut": (40, 40, 60, 60), "out": (60, 0, 70, 10), "neg": (-60, -60, -40, -40), "cover": (-70, -80, 90, 60)},
+         {"in": None, "cut": (40, 40, 10, 10), "neg": (-50, -50, 10, 10), "cover": (-50, -50, 100, 100)}),
     ]:
         names = list(boxes)
 
@@ -861,7 +861,7 @@ def check_clip_to_viewbox(repo: Repo, rep: Report, rule: str):
         u = list(dict.fromkeys(probs))
         rep.fail(rule, F, "clip_to_viewbox on schematic documents", f"{len(u)} deviations; first: {u[0]}", svg, fn)
     else:
-        rep.ok(rule, F, f"2 view boxes (one with negative origin), 11 shapes by bounding box position, {n} paths: outside dropped, inside untouched, straddling intersected with the visible rectangle under (fill-rule, nonzero)", True)
+        rep.ok(rule, F, f"2 view boxes (one with negative origin), 14 shapes by bounding box position (inside, outside, over one edge, over a corner, over two opposite edges, over all four), {n} paths: outside dropped, inside untouched, straddling intersected with the visible rectangle under (fill-rule, nonzero)", True)
 
 
 # =========================================================================================== reference render list
